@@ -463,10 +463,17 @@ def oracle(pid, ops, impl, tier):
                 out.append((f"rfc\t{f[2]}", "@C04sup:" + r, "is_superset answers false for every text that is not JSON", o))
             elif f[0] == "sourcesdoc":
                 out.append((f"rfc\t{f[-1]}", "@C04:" + r, "from_sources accepts exactly when every source is JSON", o))
+    if pid in ("C06", "C17"):
+        # the text path refuses a text that serde_json (and the value path) accept: legitimate only for a repeated
+        # member name or nesting beyond the bound, which is what the model's own verdict on the text says
+        for j in range(len(ops) - 1):
+            a, b = ops[j].split("\t"), ops[j + 1].split("\t")
+            if a[0] == "inferdoc" and b[0] == "inferv" and a[1:] == b[1:] and impl[j].startswith("err ") and impl[j + 1].startswith("ok "):
+                out.append((ops[j], "err", "the text path rejects a duplicate-free text within the depth bound that the value path accepts", ops[j]))
     if pid == "C09":
         for o, r in zip(ops, impl):
             f = o.split("\t")
-            if f[0] == "p_c09" and r.startswith("ok "):
+            if f[0] in ("p_c09", "p_readd") and r.startswith("ok "):
                 shapes = [x.replace("_", " ") for x in r[3:].split(" ")]
                 base = shapes[0]
                 for sh in shapes[1:]:
